@@ -99,8 +99,8 @@ pub struct SubM {
     pub acts: Vec<HAct>,
     /// where a handler-made subscription's token arrives
     pub token_cell: Option<Rc<std::cell::Cell<Option<SubscriptionToken>>>>,
-    /// a WriteRelease handler has run and given up its variable
-    pub released: bool,
+    /// a WriteRelease handler has run and given up its variable (in this round)
+    pub released: Option<Round>,
 }
 
 #[derive(Default, Clone, Debug)]
@@ -343,6 +343,10 @@ impl<'p> Harness<'p> {
         let evs = take_log();
         self.model.absorb_creation(&evs, Some(v.clone()));
         self.trace.push(format!("#{tag} = var({v:?})"));
+        if crate::choice::dv() >= 4 {
+            // the Var <-> watch node cycle must be broken whichever way the last handle goes
+            build::track_node(tag, &var.watch());
+        }
         self.nodes.push(NodeH { tag, incr: Some(var.watch()) });
         self.vars.push(VarH { tag, var: Some(var), handler_owner: None });
         self.classes.nodes += 1;
@@ -921,11 +925,11 @@ impl<'p> Harness<'p> {
             active: usable,
             acts,
             token_cell: None,
-            released: false,
+            released: None,
         });
         if has_child {
             // placeholder for the subscription the handler will make: id = sid + 1
-            self.subs.push(SubM { id: sid + 1, obs: oi as u32, token: None, eligible_from: Round::MAX, initialised: false, dead: false, active: false, acts: vec![], token_cell: Some(child_token), released: false });
+            self.subs.push(SubM { id: sid + 1, obs: oi as u32, token: None, eligible_from: Round::MAX, initialised: false, dead: false, active: false, acts: vec![], token_cell: Some(child_token), released: None });
         }
     }
 
@@ -1144,7 +1148,7 @@ impl<'p> Harness<'p> {
         }
         for e in &events {
             if let Event::HandlerReleased { sub, .. } = e {
-                self.subs[*sub as usize].released = true;
+                self.subs[*sub as usize].released = Some(r);
             }
         }
         // a handler that unsubscribed itself hears nothing from now on
@@ -1905,7 +1909,10 @@ impl<'p> Harness<'p> {
                         roots.push(*vt);
                     }
                     if let HAct::WriteRelease(vt, ..) = a {
-                        if !s.released {
+                        // handlers run after the stabilise has torn down the variables given up
+                        // during it: a handle dropped by a handler counts as dropped after that
+                        // stabilise, and the variable goes with the next one (or with the state)
+                        if s.released.map_or(true, |r| self.model.round <= r + 1) {
                             roots.push(*vt);
                         }
                     }
